@@ -87,6 +87,9 @@ def run(ctx):
 
     _stack(ctx, prog)
     _positioned(ctx, prog)
+    # "non-colliding" is RobotBody::collides: its mode handling and pair table (C10) are re-checked here
+    from . import C10
+    C10.run(ctx)
 
 
 def _stack(ctx, prog):
